@@ -226,3 +226,29 @@ Proof.
   - destruct (kstep false s a) as [s1|] eqn:E1; [|discriminate].
     apply (IH s1); [eapply never_ends_step; eassumption|exact He].
 Qed.
+
+(** ** The front path must not write the registry (C15-g) *)
+
+(** Connection 1 connects under name 7 and is serving; a front connection's
+    dial is answered with an error and the front path unmaps it: the name
+    resolves to nothing although the most recently connected connection
+    under it has not ended -- [newest_live_is_registered] fails in that
+    state, so it is not a state of the registry model. *)
+Theorem front_unmap_refuted :
+  match exec init [AUpgrade 1 7; AConnect 1 5] with
+  | Some s =>
+      lookup_name s 7 = Some 1 /\
+      let s' := front_unmap s 1 in
+      lookup_name s' 7 = None /\ newest s' 7 = Some 1 /\
+      (exists th, get 1 (threads s') = Some th /\ th_pc th = P2 /\ live (th_pc th) = true) /\
+      proj 1 (log s') = [Connect 7 5 1] /\ ~ reachable s'
+  | None => False
+  end.
+Proof.
+  cbn [exec step]. cbn. split; [reflexivity|]. split; [reflexivity|]. split; [reflexivity|].
+  split; [eexists; repeat split; reflexivity|]. split; [reflexivity|].
+  intros Hr.
+  pose proof (newest_live_is_registered _ 7 1 (mkThread 7 P2 5 false) Hr
+                eq_refl eq_refl eq_refl eq_refl) as G.
+  vm_compute in G. discriminate.
+Qed.
